@@ -443,6 +443,29 @@ def nanops_dispatch(tree):
     return rows
 
 
+def core_merge_dispatch(tree):
+    """GroupBy._apply_gb_func_across_chunked_group_keys: which func_names merge their key-chunk results with which
+    fixed reducer (first branch of the dispatch); the other branches are 'nan' + func_name if it exists, else func_name."""
+    for fn in [n for n in ast.walk(tree) if isinstance(n, ast.FunctionDef) and n.name == "_apply_gb_func_across_chunked_group_keys"]:
+        for n in ast.walk(fn):
+            if (isinstance(n, ast.If) and isinstance(n.test, ast.Compare) and isinstance(n.test.left, ast.Name) and n.test.left.id == "func_name"
+                    and len(n.test.ops) == 1 and isinstance(n.test.ops[0], ast.In) and isinstance(n.test.comparators[0], ast.Tuple)
+                    and len(n.body) == 1 and isinstance(n.body[0], ast.Assign) and isinstance(n.body[0].targets[0], ast.Name) and n.body[0].targets[0].id == "reducer"):
+                names = []
+                for e in n.test.comparators[0].elts:
+                    if not (isinstance(e, ast.Constant) and isinstance(e.value, str)):
+                        fail(e, "func_name tuple element")
+                    names.append(e.value)
+                val = n.body[0].value
+                if not (isinstance(val, ast.Attribute) and isinstance(val.value, ast.Attribute) and val.value.attr == "ScalarFuncs"):
+                    fail(val, "reducer = numba_funcs.ScalarFuncs.<name>")
+                if len(n.orelse) != 1 or not isinstance(n.orelse[0], ast.If):
+                    fail(n, "dispatch chain")
+                second = ast.unparse(n.orelse[0].test)
+                return names, val.attr, second
+    raise Unsupported("core merge dispatch not found")
+
+
 def gen_tables(trees):
     kern = []
     counters = []
@@ -475,6 +498,9 @@ def gen_tables(trees):
     out.append("Definition gen_unify_sites : list (string * list bool) :=\n  [" + ";\n   ".join(
         f'("{k}", [' + "; ".join("true" if b else "false" for b in v) + '])' for k, v in gu) + "].\n")
     out.append("Definition gen_cached_properties : list string := " + coq_str_list(gc) + ".\n")
+    cm_names, cm_red, cm_second = core_merge_dispatch(trees["core"])
+    out.append("(* core.py: func_names whose key-chunk results are merged with a fixed reducer, that reducer, and the test of the next branch *)")
+    out.append("Definition gen_core_merge_sums : list string * string * string :=\n  (" + coq_str_list(cm_names) + ', "' + cm_red + '", "' + cm_second.replace('"', "'") + '").\n')
     nd = nanops_dispatch(trees["nanops"])
     out.append("(* nanops.reduce_1d: condition on the reducer name, skipna, initial value, reduction of the chunk results *)")
     out.append("Definition gen_nanops_dispatch : list (string * string * string * string) :=\n  [" + ";\n   ".join(
